@@ -18,8 +18,10 @@ RULE = ("Tables of 1-3 fields with domains of 1-4 mixed hashables (ints, strings
 ASSUMPTIONS = ["only the selector forms the statement names are generated (no tuple multi-selectors inside a key)",
                "for a foreign key get(k, default) may return the default or raise; only 'never a cell' is asserted"]
 
-ATOMS = [0, 1, 2, 3, "a", "b", "", None, 2.5, (0, 1), ("a", 0), frozenset({1}), (0,), (0, (1, 2)), -1, "zz"]
-FOREIGN = ["#foreign#", 99, ("#f", 1), None, 7.25, frozenset({"#"})]
+# -1 and -2 have the same hash in CPython, as do (0, -1) / (0, -2) and frozenset({-1}) / frozenset({-2})
+ATOMS = [0, 1, 2, 3, "a", "b", "", None, 2.5, (0, 1), ("a", 0), frozenset({1}), (0,), (0, (1, 2)), -1, "zz", -2, (0, -1), (0, -2),
+         frozenset({-1}), frozenset({-2})]
+FOREIGN = ["#foreign#", 99, ("#f", 1), None, 7.25, frozenset({"#"}), -1, -2, frozenset({-2}), frozenset({-1})]
 CLASSES = ["Table", "ProbabilityTable", "StateTable", "StateActionTable", "StateActionNextStateTable", "TabularPolicy"]
 
 
@@ -321,10 +323,10 @@ def prop_navigate(case, ctx):
 
 
 PROPS = [
-    Prop("keys", lambda tier: table_specs(), prop_keys, quick=3000, thorough=50000,
+    Prop("keys", lambda tier: table_specs(), prop_keys, quick=3000, thorough=150000,
          doc="all full / nested / partial keys, outer-key lists, slices, ellipses and foreign keys of a generated table"),
     Prop("probrows", lambda tier: table_specs(classes=["ProbabilityTable", "TabularPolicy"]), prop_probrows, quick=1500,
-         thorough=15000, doc="rows of probability tables and tabular policies as distributions"),
-    Prop("navigate", lambda tier: nav_cases(tier), prop_navigate, quick=4000, thorough=80000,
+         thorough=45000, doc="rows of probability tables and tabular policies as distributions"),
+    Prop("navigate", lambda tier: nav_cases(tier), prop_navigate, quick=4000, thorough=240000,
          doc="generated navigation sequences mirrored on a numpy model"),
 ]
